@@ -922,8 +922,18 @@ fn copy_default_uvs(
         let mut end = INVALID_UNICODE_CHAR;
 
         for u in plan.unicodes.iter() {
+            // the code point has to lie in one of the original ranges, not only at the start of one
             if org_unicode_ranges
-                .binary_search_by(|r| r.start_unicode_value().to_u32().cmp(&u))
+                .binary_search_by(|r| {
+                    let range_start = r.start_unicode_value().to_u32();
+                    if u < range_start {
+                        Ordering::Greater
+                    } else if u > range_start + r.additional_count() as u32 {
+                        Ordering::Less
+                    } else {
+                        Ordering::Equal
+                    }
+                })
                 .is_err()
             {
                 continue;
@@ -931,10 +941,7 @@ fn copy_default_uvs(
 
             if start == INVALID_UNICODE_CHAR {
                 start = u;
-                end = start - 1;
-            }
-
-            if end + 1 != u || end - start == 255 {
+            } else if end + 1 != u || end - start == 255 {
                 s.embed(Uint24::new(start))?;
                 s.embed((end - start) as u8)?;
                 start = u;
